@@ -46,17 +46,18 @@ StageFailing(e) ==
          [] n = "urlunsplit" -> Bad(r = Unsplit(a[1], a[2], a[3], a[4], a[5]), "stage:urlunsplit")
          [] OTHER -> {}
 Triggers(e) == {}
-TrInit == l = 1 /\ url = <<>> /\ opt = <<>> /\ stage = "trace" /\ cur = <<>> /\ reg = [pos |-> 0, last |-> <<>>]
+\* reg.ok: the call's input is inside the quantifier of C01 (parses, hostname-like host); otherwise its stages are not judged
+TrInit == l = 1 /\ url = <<>> /\ opt = <<>> /\ stage = "trace" /\ cur = <<>> /\ reg = [pos |-> 0, last |-> <<>>, ok |-> FALSE]
 TrNext ==
   /\ l <= Len(Tr)
   /\ LET e == Tr[l] IN
        /\ UNCHANGED <<opt, stage>>
-       /\ IF e.kind = "call" THEN url' = e.u /\ cur' = <<>> /\ reg' = [pos |-> 0, last |-> <<>>]
+       /\ IF e.kind = "call" THEN url' = e.u /\ cur' = <<>> /\ reg' = [pos |-> 0, last |-> <<>>, ok |-> InGrammar(InputOf(e.u, e.dp))]
           ELSE IF e.kind = "stage"
-          THEN LET bad == StageFailing(e) \cup Bad(Rank(e.name) >= reg.pos, "stage-order")
-               IN /\ reg' = [pos |-> Rank(e.name), last |-> e.res] /\ UNCHANGED <<url, cur>>
+          THEN LET bad == IF reg.ok THEN StageFailing(e) \cup Bad(Rank(e.name) >= reg.pos, "stage-order") ELSE {}
+               IN /\ reg' = [pos |-> Rank(e.name), last |-> e.res, ok |-> reg.ok] /\ UNCHANGED <<url, cur>>
                   /\ (IF bad = {} THEN TRUE ELSE PrintT(<<"VERDICT", e.id, bad, Triggers(e)>>))
-          ELSE LET bad == IF e.exc # "" THEN {} ELSE Bad(reg.pos # 7 \/ reg.last = e.r, "result-is-last-stage")
+          ELSE LET bad == IF e.exc # "" \/ ~reg.ok THEN {} ELSE Bad(reg.pos # 7 \/ reg.last = e.r, "result-is-last-stage")
                IN /\ cur' = e.r /\ UNCHANGED <<url, reg>>
                   /\ (IF bad = {} THEN TRUE ELSE PrintT(<<"VERDICT", e.id, bad, Triggers(e)>>))
   /\ (IF l < Len(Tr) THEN TRUE ELSE PrintT(<<"TRACE-DONE", l>>))
